@@ -14,6 +14,7 @@ import vlib
 
 
 def render(prog, rng):
+    prog = prog or {}          # an empty program is serialised as [] by the model
     files = {}
     for path, f in prog.items():
         defs = []
